@@ -41,6 +41,7 @@ package core
 //@   records lastAttemptErr = err
 //@   ensures recSuccess + recFailure == old(recSuccess) + old(recFailure) + 1 && reqCount == old(reqCount)
 //@   ensures err != nil && (connErr(err) || circuitOpen(err)) ==> ghost(w).started == old(ghost(w).started)
+//@   ensures !ghost(w).started ==> ghost(w).hdr == old(ghost(w).hdr) && len(ghost(w).hdr["Content-Type"]) == old(len(ghost(w).hdr["Content-Type"]))
 //@   ensures forall e *domain.Endpoint :: ghost(e).gauge == old(ghost(e).gauge)
 //@   ensures forall e *domain.Endpoint :: !fresh(e) ==> e.Name == old(e.Name)
 
@@ -82,6 +83,7 @@ package core
 //@   ensures attempts == old(attempts) + 1 && lastAttempted == endpoint && lastAttemptErr == res
 //@   ensures recSuccess + recFailure == old(recSuccess) + old(recFailure) + 1 && reqCount == old(reqCount)
 //@   ensures res != nil && (connErr(res) || circuitOpen(res)) ==> ghost(w).started == old(ghost(w).started)
+//@   ensures !ghost(w).started ==> ghost(w).hdr == old(ghost(w).hdr) && len(ghost(w).hdr["Content-Type"]) == old(len(ghost(w).hdr["Content-Type"]))
 //@   ensures forall e *domain.Endpoint :: ghost(e).gauge == old(ghost(e).gauge)
 //@   ensures forall e *domain.Endpoint :: !fresh(e) ==> e.Name == old(e.Name)
 
@@ -131,7 +133,7 @@ package core
 //@   requires h != nil && r != nil && allNonNil(endpoints) && uniqueNames(endpoints)
 //@   requires !ghost(w).started
 //@   modifies *
-//@   loop 1 invariant !ghost(w).started
+//@   loop 1 invariant !ghost(w).started && ghost(w).hdr == old(ghost(w).hdr) && len(ghost(w).hdr["Content-Type"]) == old(len(ghost(w).hdr["Content-Type"]))
 //@   loop 1 invariant attemptCount == 0 ==> ghost(r.Body).remaining == old(ghost(r.Body).remaining)
 //@   loop 1 invariant !isnil(bodyBytes) ==> bytesContent(bodyBytes) == old(ghost(r.Body).remaining)
 //@   loop 1 invariant isnil(bodyBytes) ==> old(r.Body) == nil || old(r.Body) == http.NoBody
@@ -156,6 +158,7 @@ package core
 //@   ensures attempts > old(attempts) ==> member(lastAttempted, endpoints)
 //@   at return 6 assert !circuitOpen(lastErr) || attemptCount == len(endpoints)
 //@   at return 1 assert len(endpoints) == 0
+//@   ensures !ghost(w).started ==> ghost(w).hdr == old(ghost(w).hdr) && len(ghost(w).hdr["Content-Type"]) == old(len(ghost(w).hdr["Content-Type"]))
 
 // ---- C15: credentials and hop-by-hop headers stop at the proxy
 //@ spec func sensHeader(k string) bool = canonHeader(k) == "Authorization" || canonHeader(k) == "Cookie" || canonHeader(k) == "X-Api-Key" || canonHeader(k) == "X-Auth-Token" || canonHeader(k) == "Proxy-Authorization"
